@@ -61,7 +61,7 @@ func init() {
 			}
 		}
 	}
-	c17Probes = append(c17Probes, 0x1000, 0x8000, 0xD7FF, 0xD800, 0xDBFF, 0xDFFF, 0xE000, 0x10000, 0x10061, 0x10100, 0x12000, 0x1FFFE, 0x10FFFF)
+	c17Probes = append(c17Probes, 0x301, 0x20D0, 0x1000, 0x8000, 0xD7FF, 0xD800, 0xDBFF, 0xDFFF, 0xE000, 0x10000, 0x10061, 0x10100, 0x12000, 0x1FFFE, 0x10FFFF)
 }
 
 func (o c17Op) String() string {
@@ -292,6 +292,30 @@ func buildC17(cfg *mon.Config) []*mon.Sub {
 				for _, x := range ts {
 					if x.Type == tokenizers.Word && strings.ContainsRune(x.Value, p) {
 						c.Failf("disabling a word-character range does not stop words at its characters", "SetWordChars(%#x,%#x,false); %q -> %s: a word contains the disabled character", lo, hi, in, toksString(ts))
+						return
+					}
+				}
+			}
+			// (b') the same for the whitespace state: after the range is disabled a blank run stops before its characters
+			if p < 0xFFFF {
+				t4 := generic.NewGenericTokenizer()
+				setOptions(t4, 0)
+				t4.WhitespaceState().SetWhitespaceChars(0, 0xFFFE, true)
+				t4.WhitespaceState().SetWhitespaceChars(lo, hi, false)
+				t4.SetCharacterState(0, 0xFFFE, t4.WhitespaceState())
+				t4.SetCharacterState(lo, hi, t4.SymbolState())
+				filler := rune(' ')
+				if lo <= ' ' && hi >= ' ' {
+					filler = 0x3000
+					if lo <= filler && hi >= filler {
+						filler = 0
+					}
+				}
+				if filler != 0 {
+					in4 := string(filler) + string(filler) + string(p) + string(filler)
+					ts4 := tokenizeAll(t4, in4)
+					if len(ts4) == 0 || ts4[0].Value != string(filler)+string(filler) {
+						c.Failf("disabling a whitespace-character range does not stop blank runs at its characters", "all characters made whitespace, then SetWhitespaceChars(%#x,%#x,false) and the range handed to the symbol state; %q -> %s", lo, hi, in4, toksString(ts4))
 						return
 					}
 				}
